@@ -160,6 +160,13 @@ func registerVFS(m *Machine) {
 		}
 		return m.T.False
 	}
+	// syscall.Errno.Error reads a table of package syscall, which is not initialised in the engine
+	in["(syscall.Errno).Error"] = func(m *Machine, fr *frame, a []value) value {
+		if c, ok := a[0].(*Term); ok && c.IsConst() && c.K == 2 {
+			return conc("no such file or directory")
+		}
+		return conc("errno")
+	}
 	in["os.Remove"] = func(m *Machine, fr *frame, a []value) value {
 		p := a[0].(Str)
 		if _, ok := m.vfsGet(p); !ok {
